@@ -321,6 +321,7 @@ def check(prog, ctx):
              'table ends (rules C09.b/C09.c evaluated here because a wrong segment breaks knot reproduction)', 5)
     loc, closure = C09.locate_and_helpers(prog)
     C09.search_rules(prog, ctx, loc, closure, 'C01.h', 'C01.h')
+    ctx.sub('keyed_early_returns', C09.keyed_early_returns, prog, ctx, 'C01.h')   # an argument-keyed shortcut in Locate answers from a placeholder (C09.g)
     ctx.sub('check_bilinear', check_bilinear, prog, ctx)
     ctx.sub('check_ctor', check_ctor, prog, ctx, roles, Yf, writer)
 
